@@ -234,6 +234,26 @@ CLAIMED["C14"] = dict(
     technique="Lean 4 real-analysis lemmas on the shifted Boltzmann algorithm + Mathlib PosSemidef + plan correspondence and oracle",
     ref="DESIGN.md §5 C14")
 
+CLAIMED["C09"] = dict(
+    text="Lean 4 proof by induction over user programs (constructions from single components and lists, x+y in any grouping, x+=y, "
+         "x+=x, copy(), refused additions in between, inside or outside a units context) on a store of CorrelationFunction / "
+         "SpectralDensity objects modelled as (component list, data, reorganisation energy, temperature, cutoff) over an arbitrary "
+         "commutative monoid of data vectors: every object of every reachable store has data = sum of its components' generators, "
+         "lamb = sum of theirs, one temperature, the largest cutoff (run_consistent); (x+y).data = x.data + y.data, lamb and component "
+         "list likewise (plus_spec), any grouping gives the same function (plus_assoc), different temperatures are refused and a "
+         "refusal leaves the operands as they were (plus_refuses, addToData_refusal_keeps), success exactly when the left operand has "
+         "no value-defined component and the temperatures agree (plus_succeeds), x+=x doubles, copy reproduces. The model's switches "
+         "(dispatch on the component's own converted parameters, accumulate vs assign in every maker, refusal before modification, "
+         "rebuild in internal units) are re-extracted from the two source files on every run and the theorems need them all true "
+         "(decide). Fourier parts: for EVERY length the upper-half transform of real data is even and of imaginary data odd in the "
+         "real part (even_part_is_even, odd_part_is_odd, via dft reflection and the symmetry of the completed sequence); closed-form "
+         "integral of -Im C(t) equals the declared reorganisation energy (reorg_closed_form, reorg_window). Tied to the code by random "
+         "programs compared statement by statement with the model and by oracles on the implementation alone.",
+    note="Lean kernel + standard axioms; the numerical formulas of the makers are not modelled (generic generator); that the spline "
+         "quadrature recovers the closed-form integral is measured (1e-3), not proved.",
+    technique="Lean 4 invariant induction over programs (commutative monoid) + Mathlib DFT reflection / improper integral + extracted switches + program correspondence",
+    ref="DESIGN.md §5 C09")
+
 NOT_APPLICABLE = {}
 
 
